@@ -67,7 +67,7 @@ theorem addLines_lines (g : Grammar) (lcs : List (Str × Cpt)) (hl : ∀ p ∈ l
       · intro heq
         exact hd.1 (List.mem_map.mpr ⟨q, hq, heq.symm⟩)
 
-theorem lines_exist (g : Grammar) (hg : grammarWF g = true) (cs : List Cpt)
+theorem lines_exist_partial (g : Grammar) (hg : grammarWF g = true) (cs : List Cpt)
     (hn : ∀ c ∈ cs, ∃ r ∈ g.rules, normalCpt g r c = true ∧ ∃ o, optsParse c.opts = .ok o ∧ optsNormal o = true)
     (hnl : ∀ c ∈ cs, ∀ l, printCpt g c = some l → ∀ ch ∈ l, ch ≠ '\n')
     (lines : List Str) (hp : cs.mapM (printCpt g) = some lines) :
@@ -91,7 +91,7 @@ theorem lines_exist (g : Grammar) (hg : grammarWF g = true) (cs : List Cpt)
         simp [hl, hr] at hp; subst hp
         obtain ⟨r, hr', hnc, o, ho, hon⟩ := hn c (by simp)
         obtain ⟨c', hparse, hsame, hprint, hname, hopts, hstrip, hhead, hdot, hnene⟩ :=
-          line_roundtrip_full g hg r hr' c hnc o ho hon l hl
+          line_roundtrip_full_partial g hg r hr' c hnc o ho hon l hl
         obtain ⟨lcs, h1, h2, h3, h4, h5⟩ := ih (fun x hx => hn x (by simp [hx])) (fun x hx => hnl x (by simp [hx])) ls hr
         refine ⟨(l, c') :: lcs, by simp [h1], ?_, ?_, by simp [h4, hname], by simp [sameNetlist, hsame, h5]⟩
         · simp [List.mapM_cons, hprint, h2]
@@ -106,11 +106,11 @@ theorem lines_exist (g : Grammar) (hg : grammarWF g = true) (cs : List Cpt)
             | cons a t => rw [hcn] at hhead; simp at hhead
           · exact h3 p hp'
 
-/-- **netlist_roundtrip.**  A netlist of components in normal form with pairwise distinct names: the
+/-- **netlist_roundtrip_partial.**  A netlist of components in normal form with pairwise distinct names: the
     printed text (one component per line) is parsed back, line by line, to a netlist that the
     specification identifies with the original (`sameNetlist`), and printing that netlist gives the same
     text (idempotence).  (`hnl`: no printed line contains a newline -- it would be split.) -/
-theorem netlist_roundtrip (g : Grammar) (hg : grammarWF g = true) (cs : List Cpt) (hne : cs ≠ [])
+theorem netlist_roundtrip_partial (g : Grammar) (hg : grammarWF g = true) (cs : List Cpt) (hne : cs ≠ [])
     (hn : ∀ c ∈ cs, ∃ r ∈ g.rules, normalCpt g r c = true ∧ ∃ o, optsParse c.opts = .ok o ∧ optsNormal o = true)
     (hd : (cs.map (·.name)).Nodup)
     (hnl : ∀ c ∈ cs, ∀ l, printCpt g c = some l → ∀ ch ∈ l, ch ≠ '\n')
@@ -123,7 +123,7 @@ theorem netlist_roundtrip (g : Grammar) (hg : grammarWF g = true) (cs : List Cpt
   | none => simp [hm] at hp
   | some lines =>
     simp only [hm, Option.map_some, Option.some.injEq] at hp
-    obtain ⟨lcs, h1, h2, h3, h4, h5⟩ := lines_exist g hg cs hn hnl lines hm
+    obtain ⟨lcs, h1, h2, h3, h4, h5⟩ := lines_exist_partial g hg cs hn hnl lines hm
     have hlne : lcs ≠ [] := by
       intro e; subst e
       simp at h4
@@ -166,8 +166,8 @@ theorem netlist_roundtrip (g : Grammar) (hg : grammarWF g = true) (cs : List Cpt
     · unfold printNetlist
       simp only [h2, Option.map_some, hp]
 
-/-- **netlist_roundtrip_table.**  `netlist_roundtrip` for the checked-out grammar. -/
-theorem netlist_roundtrip_table (cs : List Cpt) (hne : cs ≠ [])
+/-- **netlist_roundtrip_table_partial.**  `netlist_roundtrip_partial` for the checked-out grammar. -/
+theorem netlist_roundtrip_table_partial (cs : List Cpt) (hne : cs ≠ [])
     (hn : ∀ c ∈ cs, ∃ r ∈ theGrammar.rules, normalCpt theGrammar r c = true
       ∧ ∃ o, optsParse c.opts = .ok o ∧ optsNormal o = true)
     (hd : (cs.map (·.name)).Nodup)
@@ -175,7 +175,7 @@ theorem netlist_roundtrip_table (cs : List Cpt) (hne : cs ≠ [])
     (txt : Str) (hp : printNetlist theGrammar ⟨cs, []⟩ = some txt) :
     ∃ cs', parseNetlist theGrammar txt = .ok ⟨cs', []⟩ ∧ sameNetlist cs cs' = true
       ∧ printNetlist theGrammar ⟨cs', []⟩ = some txt :=
-  netlist_roundtrip theGrammar table_wf2 cs hne hn hd hnl txt hp
+  netlist_roundtrip_partial theGrammar table_wf2 cs hne hn hd hnl txt hp
 
 /-- non-vacuity: a two-line netlist satisfies every hypothesis, so the theorem yields its round trip -/
 example : ∃ cs', parseNetlist theGrammar "V1 1 0 ac {a + b} 0; down\nR1 1 0".toList = .ok ⟨cs', []⟩
@@ -184,7 +184,7 @@ example : ∃ cs', parseNetlist theGrammar "V1 1 0 ac {a + b} 0; down\nR1 1 0".t
   let r := exCpt "R" "R1" "R" "1" ["1", "0"] [some "R1"] none "" ""
   have hv : printCpt theGrammar v = some "V1 1 0 ac {a + b} 0; down".toList := by decide +kernel
   have hr : printCpt theGrammar r = some "R1 1 0".toList := by decide +kernel
-  obtain ⟨cs', h1, _, h3⟩ := netlist_roundtrip_table [v, r] (by simp)
+  obtain ⟨cs', h1, _, h3⟩ := netlist_roundtrip_table_partial [v, r] (by simp)
     (by
       intro c hc
       simp only [List.mem_cons, List.not_mem_nil, or_false] at hc
